@@ -7,15 +7,24 @@ A case is a script of events on one archive that starts empty:
   ["i", [slot, genome, values]]          insert(ind)            (api stream only)
   ["r", index]                           remove(index)          (api stream only)
   ["c"]                                  clear()                (api stream only)
-After every update all objects submitted so far are overwritten in place (the "deep copies" clause),
-and the archive must not notice.
+Individuals are `creator` classes derived from `list` with a fitness, a class-declared mutable
+attribute `strategy` (a list), a dict attribute `meta` and a scalar attribute `age`, all functions of
+the genome; with `"nest": true` the genome [g0, g1, …] is held as the nested list [[g0], [g1, …]].
+After every event every object submitted so far is modified in place at every level (inner genome
+lists, strategy, meta, fitness, then the outer list), and the archive must not notice.
 
-streams:  main  similarity is an equivalence and (hall of fame) similar individuals have equal fitness:
-                model == implementation and the property statement (oracle) on the real archive
-          viol  the reading's hypotheses are violated (non-transitive / non-symmetric / irreflexive
-                similarity, equal genomes with different fitness): model == implementation and only
-                the clauses that need no hypothesis (mirror, order, size, copies)
-          api   insert / remove (any index) / clear interleaved with updates: model == implementation
+streams:  main   the hypotheses of the reading hold (similarity reflexive + symmetric, hall of fame: an
+                 equivalence with equal fitness inside a class): model == implementation and the whole
+                 statement as oracle on the real archive
+          viol   hypotheses violated (non-transitive / non-symmetric / irreflexive similarity, equal
+                 genomes with different fitness): model == implementation and every clause that does not
+                 need the violated hypothesis (size, order, mirror, copies; pairwise dissimilar / no twins
+                 for symmetric similarities; all-kept-while-room for equivalences; antichain always)
+          api    insert / remove (any index) / clear interleaved with updates: model == implementation
+families: exh (all short histories of four small universes), rand, neartie (fitnesses a few 2^-40 apart),
+          magnitude (values around 2^70 whose sums absorb small differences), bigbatch (populations of
+          11-40 with many duplicates), wide (capacity 16-40 / Pareto fronts of >= 16 with ties on the
+          first objective)
 """
 import itertools
 import operator
@@ -30,25 +39,52 @@ RULE = ("exhaustive: every history of <=3 batches of <=2 individuals from 4 univ
         "from all 6 and <=3 batches from 3 of them) incl. equal fitness with different genomes and similar-but-different genomes, "
         "1 and 2 objectives with mixed weight signs, capacity 1..3, HallOfFame and ParetoFront; random: 1-4 "
         "objectives, <=6 batches of <=5, empty batches, re-submission and in-place modification of submitted "
-        "objects, 5 similarity operators. Non-trivial = distinct case with at least two non-empty updates "
-        "(or an api script that reaches remove/insert)")
+        "objects, 7 similarity operators; near-tie fitnesses (2^-40 apart), magnitudes 2^70, populations of 11-40 with "
+        "duplicates, capacities 16-40 with first-objective ties; flat and nested genomes, mutable attributes. "
+        "Non-trivial = distinct case with at least two non-empty updates (or an api script with >= 2 events)")
 EXHAUSTIVE = {"quick": False, "thorough": True}
-TIME_BUDGET = {"quick": 50, "thorough": 800}
+TIME_BUDGET = {"quick": 55, "thorough": 840}
+MIN_CASES = 5000
 TRUSTED = ["bisect.bisect_right (C implementation) runs the loop of Lib/bisect.py that Core/Archive.lean transcribes "
            "(binary search; proved equal to the linear scan on the always-ascending key list: C08L.bisectRight_eq)",
-           "copy.deepcopy of an individual yields a new object with equal genome and fitness and no shared mutable "
-           "state (checked by the oracle on every update, modelled as a fresh object id)",
+           "copy.deepcopy: the model represents the deep copy as an object with a fresh id and the same genome/fitness; "
+           "that the real copy has the class, genome (nested), fitness and attributes of the submitted individual and "
+           "shares no mutable state with it is established only by the oracle of this harness on every update",
            "the similarity callable is a pure function of the two individuals' genome and fitness",
-           "IEEE-754: value*weight of the small dyadic inputs is exact, so the Rat model and the float implementation agree"]
+           "IEEE-754: value*weight of the dyadic inputs used (small, near-tie 2^-40, magnitude 2^70) is exact, so the Rat "
+           "model and the float implementation agree"]
 ASSUMPTIONS = ["capacity m >= 1 (m = 0 raises IndexError on the first non-empty update; modelled and compared, outside the statement)",
-               "similarity is an equivalence relation that ignores object identity; for the hall of fame similar individuals "
-               "carry equal fitness (DESIGN.md section 6); for the Pareto archive 'distinct' = not (equal fitness and similar)",
-               "all fitnesses shown to one Pareto archive have the same number of objectives; no NaN"]
+               "reading of 'distinct' (DESIGN.md section 6): similarity is reflexive, symmetric and ignores object identity, "
+               "and for the hall-of-fame clause 'no distinct individual shown is strictly better than the worst member' "
+               "similar individuals carry equal fitness (deterministic evaluation); C08.best_of_seen_needs_fit exhibits the "
+               "history (an individual re-evaluated in place to a better fitness and shown again is rejected as similar to its "
+               "old copy) on which the clause fails without it - DEAP's documented design, not counted as a finding",
+               "for the Pareto archive 'distinct' = not (equal fitness and similar); all fitnesses shown to one Pareto archive "
+               "have the same number of objectives; no NaN"]
 EXPLANATION = ("Theorems C08.* are proved for every history (list of batches), every capacity >= 1, every genome type and "
-               "every linearly ordered scalar type; the correspondence ties Core/Archive.lean to deap.tools.HallOfFame / "
-               "ParetoFront after every update of every history explored, and the statement is evaluated on the real archive.")
+               "every linearly ordered scalar type, each clause under exactly the hypotheses it needs (SimSym / SimBase / "
+               "SimHyp / equal numbers of objectives); the correspondence ties Core/Archive.lean to deap.tools.HallOfFame / "
+               "ParetoFront after every update of every history explored, and the statement is evaluated on the real archive. "
+               "C08.copies_fresh / copies_frame / pf_copies are true by construction of the model (insert allocates a fresh id): "
+               "they say what 'deep copy' means in the model; the deep-copy clause of the statement rests on the oracle, which "
+               "after every update modifies every submitted object in place at every level (nested genome elements, strategy "
+               "list, meta dict, fitness, outer list) and compares class, nested genome, fitness and attributes of the members.")
 
 BASE = 1000000
+
+# similarity operators: name -> (reflexive, symmetric, equivalence)
+SIM_PROPS = {"eq": (True, True, True), "fit": (True, True, True), "always": (True, True, True),
+             "never": (False, True, False), "lt": (False, False, False)}
+
+
+def sim_props(name):
+    if name in SIM_PROPS:
+        return SIM_PROPS[name]
+    if name.startswith("mod"):
+        return (True, True, True)
+    if name.startswith("near"):
+        return (True, True, False)
+    raise ValueError(name)
 
 
 _sfc, _flc = {}, {}
@@ -89,16 +125,44 @@ def classes_for(weights):
         n = len(_classes)
         fname, iname = "C08Fit%d" % n, "C08Ind%d" % n
         creator.create(fname, base.Fitness, weights=tuple(fl(w) for w in weights))
-        creator.create(iname, list, fitness=getattr(creator, fname))
+        creator.create(iname, list, fitness=getattr(creator, fname), strategy=list)
         _classes[key] = getattr(creator, iname)
     return _classes[key]
 
 
+def nest(genome):
+    """injective nested representation of a flat genome: [[g0], [g1, ...]]"""
+    return [list(genome[:1]), list(genome[1:])]
+
+
+def flat(ind):
+    out = []
+    for x in ind:
+        if isinstance(x, list):
+            out.extend(x)
+        else:
+            out.append(x)
+    return out
+
+
+def strat_of(genome):
+    return [sum(genome) / 2.0, float(len(genome)), 0.25]
+
+
+def age_of(genome):
+    return 3 * sum(genome) + 1
+
+
+def meta_of(genome):
+    return {"g": list(genome), "tags": ["t%d" % len(genome)]}
+
+
 def gsum(ind):
-    return sum(ind)
+    return sum(flat(ind))
 
 
 def sim_fun(name):
+    """the callable handed to DEAP (works on individuals)"""
     if name == "eq":
         return operator.eq                      # the default of HallOfFame / ParetoFront
     if name == "fit":
@@ -115,6 +179,27 @@ def sim_fun(name):
     if name.startswith("near"):
         d = int(name[4:])
         return lambda a, b: abs(gsum(a) - gsum(b)) <= d
+    raise ValueError(name)
+
+
+def sim_content(name):
+    """the same relation on recorded contents (genome tuple, weighted values) — used by the oracle"""
+    if name == "eq":
+        return lambda a, b: a[0] == b[0]
+    if name == "fit":
+        return lambda a, b: a[1] == b[1]
+    if name == "never":
+        return lambda a, b: False
+    if name == "always":
+        return lambda a, b: True
+    if name == "lt":
+        return lambda a, b: sum(a[0]) < sum(b[0])
+    if name.startswith("mod"):
+        k = int(name[3:])
+        return lambda a, b: sum(a[0]) % k == sum(b[0]) % k
+    if name.startswith("near"):
+        d = int(name[4:])
+        return lambda a, b: abs(sum(a[0]) - sum(b[0])) <= d
     raise ValueError(name)
 
 
@@ -165,13 +250,21 @@ def state_token(arch, submitted_ids):
     items = []
     for it in arch.items:
         fresh = id(it) not in submitted_ids
-        items.append("%s:%s:%s" % (ilist(it), slist(exact(it.fitness.wvalues)), "f" if fresh else "s"))
+        items.append("%s:%s:%s" % (ilist(flat(it)), slist(exact(it.fitness.wvalues)), "f" if fresh else "s"))
     keys = [slist(exact(k.wvalues)) for k in arch.keys]
     return "%s#%s" % (";".join(items) if items else "-", ";".join(keys) if keys else "-")
 
 
 def content(arch):
-    return [(tuple(it), exact(it.fitness.wvalues)) for it in arch.items], [exact(k.wvalues) for k in arch.keys]
+    """(flat genome, weighted values) of the members, and the keys"""
+    return [(tuple(flat(it)), exact(it.fitness.wvalues)) for it in arch.items], [exact(k.wvalues) for k in arch.keys]
+
+
+def deep_snapshot(arch):
+    """everything observable about the members, at every level"""
+    return ([(type(it).__name__, repr(list(it)), exact(it.fitness.wvalues), repr(getattr(it, "strategy", None)),
+              repr(getattr(it, "age", None)), repr(getattr(it, "meta", None))) for it in arch.items],
+            [exact(k.wvalues) for k in arch.keys])
 
 
 def structural(arch, m, kind, shown_contents):
@@ -181,7 +274,7 @@ def structural(arch, m, kind, shown_contents):
     if len(arch) != n or len(keys) != n:
         return "len(archive)=%d, %d items, %d keys" % (len(arch), n, len(keys))
     for j in range(n):
-        if keys[j] != items[n - 1 - j][1] or arch.keys[j] is not arch.items[n - 1 - j].fitness:
+        if keys[j] != items[n - 1 - j][1]:
             return "parallel lists drifted: keys[%d]=%s but items[%d].fitness=%s" % (j, keys[j], n - 1 - j, items[n - 1 - j][1])
     if [x for x in arch] != arch.items or any(arch[i] is not arch.items[i] for i in range(n)) \
             or list(reversed(arch)) != arch.items[::-1]:
@@ -194,53 +287,94 @@ def structural(arch, m, kind, shown_contents):
     for g, w in items:
         if (g, w) not in shown_contents:
             return "member (%s,%s) was never shown" % (g, w)
-    if len(set(id(it) for it in arch.items)) != n or len(set(id(it.fitness) for it in arch.items)) != n:
+    if len(set(id(it) for it in arch.items)) != n:
         return "two members are the same object"
     return None
 
 
-def oracle_hof(arch, m, sim, simf, shown):
+def copies(arch, IndC, nested, submitted):
+    """members are deep copies: class, nested genome shape and attributes of the submitted individual,
+    no identity shared with a submitted object at any level"""
+    sub_ids = set()
+    for s in submitted.values():
+        sub_ids.add(id(s))
+        sub_ids.add(id(s.fitness))
+        sub_ids.add(id(getattr(s, "strategy", None)))
+        sub_ids.add(id(getattr(s, "meta", None)))
+        for x in s:
+            if isinstance(x, list):
+                sub_ids.add(id(x))
+    sub_ids.discard(id(None))
+    for it in arch.items:
+        g = flat(it)
+        if type(it) is not IndC:
+            return "member has class %s, the submitted individual %s" % (type(it).__name__, IndC.__name__)
+        if list(it) != (nest(g) if nested else g):
+            return "member genome %r does not have the shape of the submitted genome" % (list(it),)
+        if getattr(it, "strategy", None) != strat_of(g) or getattr(it, "age", None) != age_of(g) \
+                or getattr(it, "meta", None) != meta_of(g):
+            return "member attributes (strategy=%r age=%r meta=%r) differ from the submitted individual's" % (
+                getattr(it, "strategy", None), getattr(it, "age", None), getattr(it, "meta", None))
+        parts = [it, it.fitness, it.strategy, it.meta] + [x for x in it if isinstance(x, list)]
+        if any(id(p) in sub_ids for p in parts):
+            return "a member is (or shares a mutable part with) a submitted object, not a deep copy"
+    return None
+
+
+def oracle_hof(arch, m, sim, shown, fit_ok):
+    """the hall-of-fame clauses, each only when the similarity has the properties its theorem needs"""
+    refl, symm, equiv = sim_props(sim)
+    simc = sim_content(sim)
     items, _ = content(arch)
     n = len(items)
-    for i in range(n):
-        for j in range(n):
-            if i != j and simf(arch.items[i], arch.items[j]):
-                return "members %d and %d are similar" % (i, j)
-    mkeys = set(class_key(sim, g, w) for g, w in items)
-    classes = set()
-    for (g, w) in shown:
-        c = class_key(sim, g, w)
-        classes.add(c)
-        if c not in mkeys:
-            if n != m:
-                return "shown individual (%s,%s) is not represented although the archive holds %d < %d" % (g, w, n, m)
-            if w > items[-1][1]:
-                return "shown individual (%s,%s) is strictly better than the worst member %s and not represented" % (g, w, items[-1][1])
-    if len(classes) <= m and classes != mkeys:
-        return "only %d distinct individuals were shown (capacity %d) but not all are kept" % (len(classes), m)
+    if symm:
+        for i in range(n):
+            for j in range(n):
+                if i != j and simc(items[i], items[j]):
+                    return "members %d and %d are similar" % (i, j)
+    if equiv:
+        mkeys = set(class_key(sim, g, w) for g, w in items)
+        classes = set(class_key(sim, g, w) for g, w in shown)
+        if len(classes) <= m and classes != mkeys:
+            return "only %d distinct individuals were shown (capacity %d) but not all are kept" % (len(classes), m)
+    if fit_ok and refl and symm:
+        for x in shown:
+            if not any(simc(x, it) for it in items):
+                if n != m:
+                    return "shown individual %s is not represented although the archive holds %d < %d" % (x, n, m)
+                if x[1] > items[-1][1]:
+                    return "shown individual %s is strictly better than the worst member %s and not represented" % (x, items[-1][1])
     return None
 
 
 def oracle_pf(arch, sim, shown):
+    refl, symm, equiv = sim_props(sim)
+    simc = sim_content(sim)
     items, _ = content(arch)
-    members = [(class_key(sim, g, w), w) for g, w in items]
-    if len(set(members)) != len(members):
-        return "two members are twins (equal fitness and similar)"
-    allw = set(w for _, w in shown)
-    nd = set((class_key(sim, g, w), w) for g, w in shown if not any(dominates(y, w) for y in allw))
-    if set(members) != nd:
-        miss = nd - set(members)
-        extra = set(members) - nd
-        return "members differ from the non-dominated distinct individuals shown: missing %s, extra %s" % (sorted(miss, key=repr), sorted(extra, key=repr))
-    for _, a in members:
-        for _, b in members:
+    for _, a in items:
+        for _, b in items:
             if dominates(a, b):
                 return "member %s dominates member %s" % (a, b)
+    if symm:
+        for i in range(len(items)):
+            for j in range(len(items)):
+                if i != j and items[i][1] == items[j][1] and simc(items[i], items[j]):
+                    return "members %d and %d are twins (equal fitness and similar)" % (i, j)
+    if refl and symm:
+        allw = set(w for _, w in shown)
+        nondom = set(w for w in allw if not any(dominates(y, w) for y in allw))
+        for g, w in items:
+            if w not in nondom:
+                return "member (%s,%s) is dominated by a fitness that was shown" % (g, w)
+        for x in set(shown):
+            if x[1] in nondom and not any(it[1] == x[1] and simc(x, it) for it in items):
+                return "shown non-dominated individual %s has no member with equal fitness similar to it" % (x,)
     return None
 
 
 def evaluate(d):
     kind, m, sim, stream = d["k"], d["m"], d["sim"], d["stream"]
+    nested = bool(d.get("nest"))
     w = tuple(d["w"])
     IndC = classes_for(d["w"])
     simf = sim_fun(sim)
@@ -254,21 +388,23 @@ def evaluate(d):
     toks, exp = [], []
     orc = None
     flags = set()
-    raised = False
     n_upd = 0
 
     def materialise(entry):
         slot, genome, values = entry
         vals = tuple(fl(v) for v in values)
+        body = nest(genome) if nested else list(genome)
         if slot in objs:
             o = objs[slot]
-            o[:] = list(genome)                     # in-place modification of a submitted object
-            o.fitness.values = vals
+            o[:] = body                             # in-place modification of a submitted object
             flags.add("resub")
         else:
-            o = IndC(list(genome))
-            o.fitness.values = vals
+            o = IndC(body)
             objs[slot] = o
+        o.fitness.values = vals
+        o.strategy[:] = strat_of(genome)
+        o.age = age_of(genome)
+        o.meta = meta_of(genome)
         wv = exact(o.fitness.wvalues)
         if wv != wvals(w, values):
             raise AssertionError("inexact weighted values")
@@ -309,30 +445,36 @@ def evaluate(d):
                 raise ValueError(op)
         except (IndexError, ZeroDivisionError) as e:
             exp.append("raise")
-            raised = True
             flags.add("raise")
             if (m >= 1 or kind == "pf") and stream != "api" and orc is None:
                 orc = "update raised %s: %s" % (type(e).__name__, e)
             break
         exp.append(state_token(arch, submitted))
-        snap = content(arch)
-        after = snap[0]
+        after = content(arch)[0]
         # ---- oracle on the real archive
         if orc is None and stream != "api":
             orc = structural(arch, m, kind, shown_set)
-        if orc is None and any(id(it) in submitted or any(it.fitness is s.fitness for s in submitted.values())
-                               for it in arch.items):
-            orc = "a member is (or shares its fitness with) a submitted object, not a deep copy"
-        # deep copies: overwrite every submitted object in place; the archive must not change
+        if orc is None:
+            orc = copies(arch, IndC, nested, submitted)
+        # deep copies: modify every submitted object in place at every level; the archive must not change
+        snap = deep_snapshot(arch)
         for o in submitted.values():
-            o[:] = [77, -77, 7]
+            for x in o:
+                if isinstance(x, list):
+                    x.append(991)
+                    x[0] = -991
+            o.strategy.append(-1.0)
+            o.strategy[0] = 123.0
+            o.meta["g"] = "clobbered"
+            o.meta["tags"].append("clobbered")
+            o.age = -1
             o.fitness.values = tuple(-5.0 if x > 0 else 5.0 for x in o.fitness.weights)
-            o.extra = "clobbered"
-        if orc is None and content(arch) != snap:
+            o[:] = [[77], [-77, 7]] if nested else [77, -77, 7]
+        if orc is None and deep_snapshot(arch) != snap:
             orc = "archive content changed when the submitted individuals were modified in place"
-        if orc is None and stream == "main" and op == "u":
+        if orc is None and stream in ("main", "viol") and op == "u":
             if kind == "hof":
-                orc = oracle_hof(arch, m, sim, simf, shown)
+                orc = oracle_hof(arch, m, sim, shown, fit_ok=(stream == "main"))
             else:
                 orc = oracle_pf(arch, sim, shown)
         # ---- branch tags
@@ -346,13 +488,17 @@ def evaluate(d):
                 flags.add("evict")
             if kind == "hof" and len(after) == m:
                 flags.add("full")
+            if len(after) >= 16:
+                flags.add("len>=16")
             ins = [x for x in after if x not in before]
             if len(ins) < len(set((tuple(e[1]), wvals(w, e[2])) for e in ev[1])):
                 flags.add("reject")
             if not ev[1]:
                 flags.add("empty-batch")
+            if len(ev[1]) > 10:
+                flags.add("batch>10")
     line = "C08 %s %d %s %s" % (kind, m, sim, " ".join(toks))
-    tag = "%s/%s/%s/nobj=%d/%s" % (kind, stream, sim, len(w), "+".join(sorted(flags)) or "plain")
+    tag = "%s/%s/%s/%s/%s" % (kind, stream, d.get("fam", "exh"), sim, "+".join(sorted(flags)) or "plain")
     nontrivial = (n_upd >= 2) or (stream == "api" and len(d["ev"]) >= 2)
     return Case(d, [line], [" ".join(exp)], orc, tag=tag, nontrivial=nontrivial)
 
@@ -383,7 +529,7 @@ def histories(inds, nb, bs):
     return itertools.product(batches, repeat=nb)
 
 
-def mk_case(kind, m, U, hist, stream="main", slots="fresh", default_sim=False):
+def mk_case(kind, m, U, hist, stream="main", slots="fresh", default_sim=False, nested=False):
     ev = []
     next_slot = [0]
     by_ind = {}
@@ -398,9 +544,11 @@ def mk_case(kind, m, U, hist, stream="main", slots="fresh", default_sim=False):
                 next_slot[0] += 1
             pop.append([s, list(g), list(v)])
         ev.append(["u", pop])
-    d = {"k": kind, "m": m, "sim": U["sim"], "w": list(U["w"]), "stream": stream, "ev": ev}
+    d = {"k": kind, "m": m, "sim": U["sim"], "w": list(U["w"]), "stream": stream, "fam": "exh", "ev": ev}
     if default_sim:
         d["default_sim"] = True
+    if nested:
+        d["nest"] = True
     return d
 
 
@@ -420,9 +568,9 @@ def gen_exhaustive(tier, rng):
             for hist in histories(inds, nb, bs):
                 for m in (1, 2, 3):
                     yield mk_case("hof", m, sub, hist, slots=rng.choice(["fresh", "reuse"]),
-                                  default_sim=(U["sim"] == "eq" and rng.random() < 0.5))
+                                  default_sim=(U["sim"] == "eq" and rng.random() < 0.5), nested=rng.random() < 0.3)
                 yield mk_case("pf", 0, sub, hist, slots=rng.choice(["fresh", "reuse"]),
-                              default_sim=(U["sim"] == "eq" and rng.random() < 0.5))
+                              default_sim=(U["sim"] == "eq" and rng.random() < 0.5), nested=rng.random() < 0.3)
 
 
 def rand_weight(rng):
@@ -430,34 +578,43 @@ def rand_weight(rng):
     return sfr(q if rng.random() < 0.5 else -q)
 
 
+def pow2_weight(rng):
+    q = Fr(rng.choice([1, 1, 2, 4]), rng.choice([1, 1, 2]))
+    return sfr(q if rng.random() < 0.5 else -q)
+
+
 def rand_value(rng, lo=0, hi=3):
     return sfr(Fr(rng.randint(lo * 2, hi * 2), 2) if rng.random() < 0.2 else Fr(rng.randint(lo, hi)))
 
 
-def gen_random_main(rng, kind):
-    nobj = rng.choice([1, 1, 2, 2, 2, 3, 4])
-    w = [rand_weight(rng) for _ in range(nobj)]
-    sim = rng.choice(["eq", "eq", "mod2", "mod3", "mod5", "fit", "always"])
-    gpool = [[rng.randint(-2, 4) for _ in range(rng.choice([1, 1, 2, 3]))] for _ in range(rng.randint(1, 8))]
-    hi = rng.choice([1, 2, 3, 6])
+EPS = Fr(1, 2 ** 40)
+BIG = 2 ** 70
+
+
+def neartie_value(rng):
+    return sfr(Fr(rng.randint(0, 2)) + rng.choice([-2, -1, 0, 0, 1, 2]) * EPS)
+
+
+def build_history(rng, kind, sim, nobj, gpool, value_fn, free, nbatches, sizes, resub=0.35, vector=False):
+    """batches drawn from a genome pool; fitness a function of the similarity class unless `free`"""
     table = {}
-    free = sim == "fit" or (kind == "pf" and rng.random() < 0.5)   # Pareto: 'distinct' includes the fitness
+
+    def vec():
+        return value_fn(rng, None) if vector else [value_fn(rng) for _ in range(nobj)]
 
     def fitness_of(g):
-        # hall of fame (main): fitness is a function of the similarity class
         if free:
-            return [rand_value(rng, 0, hi) for _ in range(nobj)]
+            return vec()
         key = class_key(sim, g, None)
         if key not in table:
-            table[key] = [rand_value(rng, 0, hi) for _ in range(nobj)]
+            table[key] = vec()
         return table[key]
-    m = rng.choice([1, 1, 2, 2, 3, 3, 4, 5, 8]) if kind == "hof" else 0
     ev, nslots = [], 0
-    for _ in range(rng.randint(1, 6)):
+    for _ in range(nbatches):
         pop = []
-        for _ in range(rng.choice([0, 1, 1, 2, 2, 3, 4, 5])):
+        for _ in range(rng.choice(sizes)):
             g = rng.choice(gpool)
-            if nslots and rng.random() < 0.35:
+            if nslots and rng.random() < resub:
                 s = rng.randrange(nslots)           # re-submission (maybe with a new content, in place)
             else:
                 s = nslots
@@ -465,7 +622,83 @@ def gen_random_main(rng, kind):
             same = [e for e in pop if e[0] == s]    # the same object twice in one population
             pop.append(list(same[0]) if same else [s, list(g), fitness_of(g)])
         ev.append(["u", pop])
-    return {"k": kind, "m": m, "sim": sim, "w": w, "stream": "main", "ev": ev}
+    return ev
+
+
+def small_pool(rng):
+    return [[rng.randint(-2, 4) for _ in range(rng.choice([1, 1, 2, 3]))] for _ in range(rng.randint(1, 8))]
+
+
+def gen_random_main(rng, kind, fam="rand"):
+    nobj = rng.choice([1, 1, 2, 2, 2, 3, 4])
+    sims = ["eq", "eq", "mod2", "mod3", "mod5", "fit", "always"]
+    if kind == "pf":
+        sims += ["near1", "near2"]              # the Pareto theorems need no transitivity
+    sim = rng.choice(sims)
+    hi = rng.choice([1, 2, 3, 6])
+    value_fn = lambda r: rand_value(r, 0, hi)
+    vector = False
+    w = [rand_weight(rng) for _ in range(nobj)]
+    if fam == "neartie":
+        nobj = rng.choice([2, 2, 3])
+        w = [pow2_weight(rng) for _ in range(nobj)]
+        value_fn = neartie_value
+    elif fam == "magnitude":
+        # some coordinates of magnitude 2^70 (one or two values per coordinate, fixed for the case), the others
+        # small: float sums of the weighted values absorb the small coordinates
+        nobj = rng.choice([2, 2, 3, 4])
+        w = [rng.choice(["1", "-1"]) for _ in range(nobj)]
+        big = [rng.random() < 0.5 for _ in range(nobj)]
+        big[rng.randrange(nobj)] = True
+        if all(big):
+            big[rng.randrange(nobj)] = False
+        bigvals = [[rng.choice([BIG, -BIG, 2 * BIG, BIG + 2 ** 20]) for _ in range(rng.choice([1, 1, 2]))] for _ in range(nobj)]
+        vector = True
+        value_fn = lambda r, _: [sfr(r.choice(bigvals[j])) if big[j] else sfr(r.randint(0, 3)) for j in range(nobj)]
+    free = sim == "fit" or (kind == "pf" and (not sim_props(sim)[2] or rng.random() < 0.6))
+    m = rng.choice([1, 1, 2, 2, 3, 3, 4, 5, 8]) if kind == "hof" else 0
+    ev = build_history(rng, kind, sim, nobj, small_pool(rng), value_fn, free, rng.randint(1, 6),
+                       [0, 1, 1, 2, 2, 3, 4, 5], vector=vector)
+    return {"k": kind, "m": m, "sim": sim, "w": w, "stream": "main", "fam": fam, "nest": rng.random() < 0.5, "ev": ev}
+
+
+def gen_bigbatch(rng, kind):
+    """populations of 11-40 drawn from few genomes: many duplicates inside one population"""
+    nobj = rng.choice([1, 2, 2])
+    w = [rand_weight(rng) for _ in range(nobj)]
+    sim = rng.choice(["eq", "eq", "mod5", "fit"])
+    gpool = [[i] if rng.random() < 0.7 else [i, rng.randint(0, 2)] for i in range(rng.randint(2, 7))]
+    m = rng.choice([1, 2, 2, 3, 3, 4, 5]) if kind == "hof" else 0
+    free = sim == "fit" or (kind == "pf" and rng.random() < 0.5)
+    ev = build_history(rng, kind, sim, nobj, gpool, lambda r: rand_value(r, 0, 6), free, rng.randint(1, 3),
+                       [11, 12, 15, 20, 30, 40, 0, 3], resub=0.1)
+    return {"k": kind, "m": m, "sim": sim, "w": w, "stream": "main", "fam": "bigbatch", "nest": rng.random() < 0.3, "ev": ev}
+
+
+def gen_wide(rng, kind):
+    """archives of 16-40 members with many ties on the first objective"""
+    if kind == "hof":
+        nobj = rng.choice([2, 3])
+        w = [rand_weight(rng) for _ in range(nobj)]
+        a, b, c = rng.randint(1, 9), rng.randint(1, 9), rng.randint(1, 9)
+        fit = lambda i: [str(i % 3), str((i * a + c) % 11), str((i * b) % 4)][:nobj]
+        m = rng.randint(16, 40)
+        universe = list(range(80))
+    else:
+        nobj = 3
+        w = [sfr(Fr(rng.choice([1, 2, 1]), rng.choice([1, 2]))) for _ in range(3)]
+        pts = [(x, y, 20 - x - y) for x in range(3) for y in range(13)] + [(0, 0, 0), (1, 1, 1), (2, 5, 5)]
+        fit = lambda i: [str(v) for v in pts[i % len(pts)]]
+        m = 0
+        universe = list(range(len(pts)))
+    ev, nslots = [], 0
+    for _ in range(rng.randint(3, 5)):
+        pop = []
+        for i in rng.sample(universe, rng.randint(10, 25)):
+            pop.append([nslots, [i], fit(i)])
+            nslots += 1
+        ev.append(["u", pop])
+    return {"k": kind, "m": m, "sim": "eq", "w": w, "stream": "main", "fam": "wide", "default_sim": rng.random() < 0.5, "ev": ev}
 
 
 def gen_random_viol(rng, kind):
@@ -473,21 +706,10 @@ def gen_random_viol(rng, kind):
     w = [rand_weight(rng) for _ in range(nobj)]
     sim = rng.choice(["near1", "near2", "lt", "never", "eq", "mod2", "always"])
     m = rng.choice([1, 2, 3, 4]) if kind == "hof" else 0
-    ev, nslots = [], 0
-    for _ in range(rng.randint(1, 6)):
-        pop = []
-        for _ in range(rng.choice([0, 1, 2, 3, 4, 5])):
-            g = [rng.randint(0, 4) for _ in range(rng.choice([1, 1, 2]))]
-            if nslots and rng.random() < 0.3:
-                s = rng.randrange(nslots)
-            else:
-                s = nslots
-                nslots += 1
-            same = [e for e in pop if e[0] == s]
-            pop.append(list(same[0]) if same else
-                       [s, g, [rand_value(rng, 0, 2) for _ in range(nobj)]])   # fitness unrelated to the genome
-        ev.append(["u", pop])
-    return {"k": kind, "m": m, "sim": sim, "w": w, "stream": "viol", "ev": ev}
+    gpool = [[rng.randint(0, 4) for _ in range(rng.choice([1, 1, 2]))] for _ in range(rng.randint(2, 10))]
+    ev = build_history(rng, kind, sim, nobj, gpool, lambda r: rand_value(r, 0, 2), True, rng.randint(1, 6),
+                       [0, 1, 2, 3, 4, 5], resub=0.3)       # fitness unrelated to the genome
+    return {"k": kind, "m": m, "sim": sim, "w": w, "stream": "viol", "fam": "rand", "nest": rng.random() < 0.3, "ev": ev}
 
 
 def gen_random_api(rng, kind):
@@ -511,37 +733,63 @@ def gen_random_api(rng, kind):
             ev.append(["r", rng.randint(-5, 4)])
         else:
             ev.append(["c"])
-    return {"k": kind, "m": m, "sim": sim, "w": w, "stream": "api", "ev": ev}
+    return {"k": kind, "m": m, "sim": sim, "w": w, "stream": "api", "fam": "rand", "ev": ev}
+
+
+CORNERS = [
+    {"k": "hof", "m": 0, "sim": "eq", "w": ["1"], "stream": "api", "fam": "corner", "ev": [["u", []], ["u", [[0, [1], ["1"]]]]]},
+    {"k": "hof", "m": 1, "sim": "eq", "w": ["1"], "stream": "api", "fam": "corner", "ev": [["r", 0]]},
+    {"k": "pf", "m": 0, "sim": "eq", "w": ["1", "1"], "stream": "main", "fam": "corner", "default_sim": True,
+     "ev": [["u", [[0, [0], ["1", "1"]], [1, [1], ["0", "2"]], [2, [2], ["2", "0"]]]], ["u", [[3, [3], ["2", "2"]]]]]},
+    # near-tie twins: same genome, fitnesses 2^-40 apart in opposite directions -> two members
+    {"k": "pf", "m": 0, "sim": "eq", "w": ["1", "1"], "stream": "main", "fam": "corner", "default_sim": True,
+     "ev": [["u", [[0, [5], ["1", "2"]], [1, [5], [sfr(1 + EPS), sfr(2 - EPS)]]]]]},
+    # sums absorb the difference: (2^70, 1) dominates (2^70, 0)
+    {"k": "pf", "m": 0, "sim": "eq", "w": ["1", "1"], "stream": "main", "fam": "corner",
+     "ev": [["u", [[0, [1], [sfr(BIG), "0"]]]], ["u", [[1, [2], [sfr(BIG), "1"]]]]]},
+    # the history of ASSUMPTIONS: an individual re-evaluated in place to a better fitness and shown again
+    # (hypothesis 'similar => equal fitness' violated: viol stream, the best-of-seen clause is not demanded)
+    {"k": "hof", "m": 2, "sim": "eq", "w": ["1"], "stream": "viol", "fam": "corner", "default_sim": True,
+     "ev": [["u", [[0, [1], ["1"]], [1, [2], ["3"]]]], ["u", [[0, [1], ["5"]]]], ["u", [[2, [3], ["2"]]]]]},
+]
 
 
 def generate(tier, rng, mult):
+    """Which families/streams run never depends on the seed: fixed counts per family, targeted families first
+    (the time budget truncates from the end), then the exhaustive enumeration with the random cases spread inside."""
     thorough = tier == "thorough"
-    # a few hand-written corner cases first
-    yield {"k": "hof", "m": 0, "sim": "eq", "w": ["1"], "stream": "api", "ev": [["u", []], ["u", [[0, [1], ["1"]]]]]}
-    yield {"k": "hof", "m": 1, "sim": "eq", "w": ["1"], "stream": "api", "ev": [["r", 0]]}
-    yield {"k": "pf", "m": 0, "sim": "eq", "w": ["1", "1"], "stream": "main", "default_sim": True,
-           "ev": [["u", [[0, [0], ["1", "1"]], [1, [1], ["0", "2"]], [2, [2], ["2", "0"]]]], ["u", [[3, [3], ["2", "2"]]]]]}
+    for d in CORNERS:
+        yield d
+    scale = (10 if thorough else 1) * mult
+    for i in range(300 * scale):
+        yield gen_random_main(rng, "pf" if i % 3 else "hof", fam="neartie")
+    for i in range(200 * scale):
+        yield gen_random_main(rng, "pf" if i % 3 else "hof", fam="magnitude")
+    for i in range(200 * scale):
+        yield gen_bigbatch(rng, "hof" if i % 4 else "pf")
+    for i in range(100 * scale):
+        yield gen_wide(rng, "hof" if i % 3 else "pf")
     nrand = (30000 if thorough else 4000) * mult
-    # interleave: random cases are spread between the exhaustive ones so a truncated run still sees both
     ex = gen_exhaustive(tier, rng)
     every = 40 if thorough else 15
     produced = 0
     for i, d in enumerate(ex):
         yield d
         if i % every == 0 and produced < nrand:
+            yield random_case(rng, produced)
             produced += 1
-            yield random_case(rng)
     while produced < nrand:
+        yield random_case(rng, produced)
         produced += 1
-        yield random_case(rng)
 
 
-def random_case(rng):
-    kind = "hof" if rng.random() < 0.6 else "pf"
-    r = rng.random()
-    if r < 0.6:
+def random_case(rng, i):
+    """deterministic schedule: 60% main, 20% viol, 20% api; 60% hall of fame"""
+    kind = "pf" if i % 5 in (1, 3) else "hof"
+    r = (i // 5) % 5
+    if r < 3:
         return gen_random_main(rng, kind)
-    if r < 0.8:
+    if r == 3:
         return gen_random_viol(rng, kind)
     return gen_random_api(rng, kind)
 
@@ -551,16 +799,21 @@ def shrink(d):
     for i in range(len(ev)):                       # drop an event
         if len(ev) > 1:
             yield dict(d, ev=ev[:i] + ev[i + 1:])
-    for i, e in enumerate(ev):                     # drop an individual of a batch
+    for i, e in enumerate(ev):                     # drop an individual of a batch (halves first for big batches)
         if e[0] == "u":
-            for j in range(len(e[1])):
+            n = len(e[1])
+            if n > 6:
+                yield dict(d, ev=ev[:i] + [["u", e[1][:n // 2]]] + ev[i + 1:])
+                yield dict(d, ev=ev[:i] + [["u", e[1][n // 2:]]] + ev[i + 1:])
+            for j in range(n):
                 yield dict(d, ev=ev[:i] + [["u", e[1][:j] + e[1][j + 1:]]] + ev[i + 1:])
     if d["k"] == "hof" and d["m"] > 1:
         yield dict(d, m=d["m"] - 1)
-    if d.get("default_sim"):
-        e = dict(d)
-        del e["default_sim"]
-        yield e
+    for key in ("default_sim", "nest"):
+        if d.get(key):
+            e = dict(d)
+            del e[key]
+            yield e
 
 
 def classify(desc, msg, known):
